@@ -393,6 +393,9 @@ class ConfigParser(object):
       cp.read_file(fp)
     except (configparser.DuplicateOptionError, configparser.DuplicateSectionError) as e:
       raise ConfigParserDuplicateEntryException(e.message)
+    except configparser.Error as e:
+      # e.g. text that is not an INI file (no section header) or a line without ':' or '='
+      raise ConfigParserException("Could not read potential definition: {}".format(e.message))
 
     # Process overrides
     for override in overrides:
@@ -419,6 +422,15 @@ class ConfigParser(object):
       if not cp.has_section(override.section):
         cp.add_section(override.section)
       cp[override.section][override.key] = override.value
+
+    # Resolve every ${...} placeholder once now, so that an unresolvable or malformed placeholder
+    # is reported as a configuration error rather than escaping later when the value is first used.
+    try:
+      for section in cp.sections():
+        for key in cp.options(section):
+          cp.get(section, key)
+    except configparser.InterpolationError as e:
+      raise ConfigParserException("Could not resolve placeholder: {}".format(e.message))
 
     return cp
 
